@@ -30,8 +30,9 @@ func (cs *crashStore) open() (gofakes3.Backend, error) {
 }
 
 type crashCase struct {
-	name string
-	run  func(s *Sess)
+	name    string
+	run     func(s *Sess)
+	noProbe bool // the request is the first one of its process to read metadata (it measures the mod-time resolution)
 }
 
 // c15Crash enumerates the crash points of one write: the process dies immediately before each
@@ -43,27 +44,32 @@ func c15Crash(kind string) {
 	mB := []KV{{"X-Amz-Meta-Color", "red"}, {"X-Amz-Meta-Extra", "1"}}
 	keys := []string{"a/b", "d", "e/f/g", "new"}
 	cases := []crashCase{
-		{"put-new-key", func(s *Sess) { s.Put(b, "e/f/g", []byte("a new object"), mB) }},
-		{"put-overwrite-longer", func(s *Sess) { s.Put(b, "a/b", []byte("a longer replacement body"), mB) }},
-		{"put-overwrite-shorter", func(s *Sess) { s.Put(b, "a/b", []byte("s"), mB) }},
-		{"put-overwrite-same-length", func(s *Sess) { s.Put(b, "a/b", []byte("NEW-ab"), mB) }},
-		{"put-overwrite-drop-metadata", func(s *Sess) { s.Put(b, "a/b", []byte("plain"), nil) }},
-		{"delete", func(s *Sess) { s.Delete(b, "a/b") }},
-		{"delete-top-level", func(s *Sess) { s.Delete(b, "d") }},
-		{"copy-over-existing", func(s *Sess) { s.Copy(b, "a/b", b, "d") }},
-		{"copy-to-new-key", func(s *Sess) { s.Copy(b, "a/b", b, "new") }},
-		{"multi-delete-one", func(s *Sess) { s.MultiDelete(b, []KV{{K: "d"}}) }},
+		{"put-new-key", func(s *Sess) { s.Put(b, "e/f/g", []byte("a new object"), mB) }, false},
+		{"put-overwrite-longer", func(s *Sess) { s.Put(b, "a/b", []byte("a longer replacement body"), mB) }, false},
+		{"put-overwrite-shorter", func(s *Sess) { s.Put(b, "a/b", []byte("s"), mB) }, false},
+		{"put-overwrite-same-length", func(s *Sess) { s.Put(b, "a/b", []byte("NEW-ab"), mB) }, false},
+		{"put-overwrite-drop-metadata", func(s *Sess) { s.Put(b, "a/b", []byte("plain"), nil) }, false},
+		{"delete", func(s *Sess) { s.Delete(b, "a/b") }, false},
+		{"delete-top-level", func(s *Sess) { s.Delete(b, "d") }, false},
+		{"copy-over-existing", func(s *Sess) { s.Copy(b, "a/b", b, "d") }, false},
+		{"copy-to-new-key", func(s *Sess) { s.Copy(b, "a/b", b, "new") }, false},
+		{"multi-delete-one", func(s *Sess) { s.MultiDelete(b, []KV{{K: "d"}}) }, false},
+		// reads change nothing, whenever they are cut short, also the first one of a process
+		{"first-read-get", func(s *Sess) { s.Get(b, "a/b", "") }, true},
+		{"first-read-list", func(s *Sess) { s.List(ListReq{Bucket: b, MaxKeys: -1}) }, true},
 	}
 	if !isSingle(kind) {
-		cases = append(cases, crashCase{"create-bucket", func(s *Sess) { s.MkBucket("bkb") }})
+		cases = append(cases, crashCase{"create-bucket", func(s *Sess) { s.MkBucket("bkb") }, false})
 	}
-	setup := func(s *Sess) {
+	setup := func(s *Sess, probe bool) {
 		if !isSingle(kind) {
 			s.MkBucket(b)
 		}
 		s.Put(b, "a/b", []byte("old-ab"), mA)
 		s.Put(b, "d", []byte("dd"), []KV{{"X-Amz-Meta-X", "1"}})
-		s.Get(b, "a/b", "") // metadata has been loaded once (mod-time resolution probed)
+		if probe {
+			s.Get(b, "a/b", "") // metadata has been loaded once (mod-time resolution probed)
+		}
 	}
 	mk := func(mute bool) (*Sess, *crashStore) {
 		cs := &crashStore{kind: kind, dir: newTmp("crash-" + kind)}
@@ -86,7 +92,7 @@ func c15Crash(kind string) {
 	for _, cc := range cases {
 		// dry run: which state-changing calls does the request make?
 		s0, cs0 := mk(true)
-		setup(s0)
+		setup(s0, !cc.noProbe)
 		c0 := cs0.ctl.count
 		cc.run(s0)
 		calls := append([]string{}, cs0.ctl.log[c0:]...)
@@ -104,7 +110,7 @@ func c15Crash(kind string) {
 		}
 		for _, pt := range points {
 			s, cs := mk(false)
-			setup(s)
+			setup(s, !cc.noProbe)
 			if strings.Contains(cc.name, "same-length") {
 				// the backends tell a rewritten file from its metadata record by size and modification
 				// time: let the clock move on (coarse file-system timestamps) so that this is a test of
